@@ -716,11 +716,6 @@ func fileScenario(r *vh.Run, ck, kind string) {
 	if vh.Thorough() {
 		n = 2000
 	}
-	if strings.HasPrefix(kind, "ccache") && os.Getenv("C20_CCACHE_CORRUPTIONS") == "" {
-		// single-byte corruptions of count fields make the ccache reader allocate without bound (C04's subject: process-fatal
-		// out of memory); enabled once the reader checks its counts
-		n = 0
-	}
 	for i := 0; i < n; i++ {
 		b := append([]byte{}, file...)
 		b[rnd.Intn(len(b))] = byte(rnd.U64())
